@@ -532,6 +532,9 @@ func boundToCreated(w *World, fn *ssa.Function, rel ssa.Value, creator *ssa.Func
 				for _, c := range callInstrs(caller) {
 					callee, _ := calleeOf(c.Common())
 					if origin(callee) == curFn && idx < len(c.Common().Args) {
+						if n > 0 && nextFn == caller && sameValue(next, c.Common().Args[idx]) {
+							continue // a second call site of the same caller with the same value (one per branch)
+						}
 						n++
 						next, nextFn = c.Common().Args[idx], caller
 					}
